@@ -183,6 +183,13 @@ def run(ctx: Ctx) -> RuleResult:
     wl_var = norm(explor[0].value.args[0])
     # window with line count: (text, match_start, end, line, line_start_pos)
     wl = [a for a in _assigns(f, wl_var)]
+    if isinstance(explor[0].value.args[0], ast.Call):
+        # the window is built in the argument itself
+        wl = [ast.copy_location(ast.Assign(targets=[ast.Name(id='<window>', ctx=ast.Store())], value=explor[0].value.args[0]), explor[0])]
+        wl[0]._parent = parent(explor[0])       # type: ignore[attr-defined]
+        wl_anchor = explor[0]
+    else:
+        wl_anchor = wl[0] if wl else None
     ok = len(wl) == 1 and isinstance(wl[0].value, ast.Call) and len(wl[0].value.args) == 5
     if ok:
         a = wl[0].value.args
@@ -192,13 +199,13 @@ def run(ctx: Ctx) -> RuleResult:
         if ok:
             adv = [n for s in loop.body for n in ast.walk(s) if isinstance(n, ast.Call) and norm(n.func) == ctr + '.advance_to']
             ok = len(adv) == 1 and len(adv[0].args) == 2 and norm(adv[0].args[0]) == text_param + '.text' and norm(adv[0].args[1]) == ms_var \
-                and g.dominates(g.node_of(enclosing_stmt(adv[0])), g.node_of(wl[0]))
+                and g.dominates(g.node_of(enclosing_stmt(adv[0])), g.node_of(wl_anchor))
             cinit = [x for x in _assigns(f, ctr) if parent(x) is f.node]
             ok = ok and len(cinit) == 1 and 'from_text_slice' in norm(cinit[0].value) and norm(cinit[0].value.args[0]) == text_param
     res.ob(site, 'the exploratory window is [candidate, window end) of the same buffer, with the line state of the full text '
                  '(one counter, advanced to the candidate)', ok)
     if not ok:
-        bad(wl[0] if wl else loop, 'the window handed to the exploratory lexer does not start at the candidate with the full text\'s '
+        bad(wl_anchor if wl_anchor is not None else loop, 'the window handed to the exploratory lexer does not start at the candidate with the full text\'s '
                                    'line/column state', 'window')
     # callbacks off before the first feed
     empt = [n for s in loop.body for n in ast.walk(s) if isinstance(n, ast.Assign) and len(n.targets) == 1
